@@ -228,6 +228,14 @@ partial def genStmts (n : Nat) (idx : Nat) (depth : Nat) (vars : List String) (f
       members := members.take at_ ++ [Member.declareField "dfld" (← genTy 1 vars)] ++ members.drop at_
     if (← chance 35) then
       members := members ++ [← pick [Member.indexSig "k2" (.kw "string") (.kw "unknown"), Member.declareField "dlast" (.kw "number")]]
+    -- a static initialisation block (it runs, whatever stands before it): directly after a member without run-time
+    -- meaning half of the time, anywhere otherwise
+    if (← chance 60) then
+      let blk := Member.staticBlock [Stmt.expr (.assign (.member (.var c) "sfld") (.bin "+" (.member (.var c) "sfld") (.num (1 + (← rnd 5)))))]
+      let voids := (List.range members.length).filter (fun i =>
+        match members[i]? with | some (Member.indexSig ..) => true | some (Member.declareField ..) => true | _ => false)
+      let at_ ← if voids.isEmpty || (← chance 50) then rnd (members.length + 1) else (do let i ← pick voids; pure (i + 1))
+      members := members.take at_ ++ [blk] ++ members.drop at_
     let impls ← if (← chance 30) then pure [Ty.ref "Foo" [], Ty.ref "Array" [.kw "number"]] else pure []
     let s := Stmt.cls c (← genTParams) impls members
     let o := s!"v{idx}"
